@@ -29,7 +29,7 @@ RULE = ("history = N in 1..8 requests (GET/POST/PUT/PATCH/DELETE/OPTIONS, none|b
         "loopback) x random interleaving of 12 service actions (1500 steps max) then <=400 fair rounds; requests queued "
         "up front or appended while running; distinct = distinct (request list, shape list, schedule seed); non-trivial "
         "= N >= 2 with at least one response without a length after the first response or mixed shapes")
-RULE = __import__("vf.core", fromlist=["rule_add"]).rule_add(RULE, 'also a second life of the patron after a close request and a reconnect')
+RULE = __import__("vf.core", fromlist=["rule_add"]).rule_add(RULE, 'also a second life of the patron after a close request and a reconnect, streams whose application fails with an ordinary exception after its last piece, HEAD / 304 responses that declare the length of their entity')
 META = {"engine": "D+E io/http", "technique": "history checking with unique ids, independent wire re-parse, schedule fuzzing",
         "level_text": "exploration: sampled sequences and schedules; every shape as first and as later response floor-counted",
         "level_note": "HEAD and 204/304 are generated with applications that produce no body (no-body semantics belong to the application), 1xx are not; "
